@@ -24,9 +24,7 @@ def replay(pid, path, seed):
     rec = json.load(open(path))
     inp = os.path.join(ctx.dir, "replay.in.ndjson")
     outp = os.path.join(ctx.dir, "replay.out.ndjson")
-    with open(inp, "w") as f:
-        for e in rec["history"]:
-            f.write(json.dumps(e) + "\n")
+    V.write_history_twice(inp, rec["history"])
     if rec.get("kind") == "table":
         row = rec["history"][0]
         if "steps" in row:      # a TLC-generated behaviour: replay it again on a fresh build
